@@ -100,3 +100,60 @@ def regex_class_chars(tree_in):
         else:
             return None, None
     return out, neg
+
+
+def call_closure(model, roots):
+    """Functions reachable from `roots` through self.X() / __class__.X() / nested-function calls inside the same class."""
+    from .model import mangle
+    seen, todo = [], list(roots)
+    while todo:
+        f = todo.pop()
+        if f in seen:
+            continue
+        seen.append(f)
+        for n in ast.walk(f.node):
+            if isinstance(n, ast.Call) and isinstance(n.func, ast.Attribute) and isinstance(n.func.value, ast.Name) \
+                    and n.func.value.id in ("self", "__class__", "pre", "pre1", "pre2") and f.cls is not None:
+                g = None
+                for ci in [f.cls] + [c for c in f.cls.mro()] + ([model.pregex] if model.pregex not in f.cls.mro() else []):
+                    g = ci.find_method(mangle(n.func.attr, ci.name))
+                    if g is not None:
+                        break
+                if g is not None and g not in seen:
+                    todo.append(g)
+    return seen
+
+
+def interesting_ints(funcs, lo=-1000, hi=100000):
+    """Integer constants the given functions compare or compute with (not slice bounds, defaults or subscripts):
+    values at which their behaviour may change.  Used to extend witness grids: c-1, c, c+1 for each constant c."""
+    out = set()
+    for f in funcs:
+        for n in ast.walk(f.node):
+            cands = []
+            if isinstance(n, ast.Compare):
+                cands = [n.left] + list(n.comparators)
+            elif isinstance(n, ast.BinOp) and isinstance(n.op, (ast.Add, ast.Sub, ast.Mult, ast.Mod, ast.FloorDiv, ast.Div, ast.Pow)):
+                cands = [n.left, n.right]
+            elif isinstance(n, ast.Call) and isinstance(n.func, ast.Name) and n.func.id in ("range", "divmod", "min", "max", "round"):
+                cands = list(n.args)
+            for c in cands:
+                if isinstance(c, ast.UnaryOp) and isinstance(c.op, ast.USub) and isinstance(c.operand, ast.Constant):
+                    v = c.operand.value
+                    v = -v if isinstance(v, int) and not isinstance(v, bool) else None
+                elif isinstance(c, ast.Constant):
+                    v = c.value
+                else:
+                    continue
+                if isinstance(v, int) and not isinstance(v, bool) and lo <= v <= hi:
+                    out.add(v)
+    return out
+
+
+def around(values, lo=None, hi=None):
+    out = set()
+    for v in values:
+        for x in (v - 1, v, v + 1):
+            if (lo is None or x >= lo) and (hi is None or x <= hi):
+                out.add(x)
+    return sorted(out)
